@@ -27,7 +27,9 @@ class SuffixTrie(object):
                     node.exception = set()
 
                 node.exception.add(part[1:])
-                break
+
+                # NOTE: the parent of an exception rule is not a suffix by itself
+                return
 
             # To save up some RAM, we initialize the children dict only
             # when strictly necessary
@@ -70,12 +72,14 @@ class SuffixTrie(object):
         for i in range(l - 1, -1, -1):
             part = parts[i]
 
-            # Cannot go deeper
-            if node.children is None:
+            # Exception: the suffix is the exception rule's parent
+            if node.exception is not None and part in node.exception:
+                suffix_length = current_length
+                match = node
                 break
 
-            # Exception
-            if node.exception is not None and part in node.exception:
+            # Cannot go deeper
+            if node.children is None:
                 break
 
             child = node.children.get(part)
@@ -104,8 +108,8 @@ class SuffixTrie(object):
                 suffix_length = current_length
                 match = node
 
-        # Checking the node we finished on is a leaf and is one we allow
-        if match is None or not match.leaf:
+        # Checking we matched some rule
+        if match is None:
             return None
 
         # hostname = suffix ?
